@@ -403,7 +403,7 @@ func init() {
 			if tier == "thorough" {
 				return 48
 			}
-			return 8
+			return 12
 		},
 		Run:       c18Run,
 		MustProbe: []string{"honest_combination_returns_state", "measured_rtmr_bitflip_resigned", "log_digest_bitflip", "log_extended_with_rtmr3_event", "rtmr3_measured_bitflip"},
